@@ -18,6 +18,19 @@ CANARY = "10.0.77.7:7777"
 BODY = b"canary-body-5d1e"
 
 
+MEMCHECK = ["valgrind", "-q", "--error-exitcode=97", "--exit-on-first-error=yes",
+            "--leak-check=no", "--undef-value-errors=yes", "--track-origins=yes"]
+MODE = {"memcheck": False}
+
+
+def new_world(exe, seed):
+    """ASan+UBSan build, or - memcheck pass - the uninstrumented build under valgrind (reads of
+    uninitialised memory that steer control flow are invisible to ASan)"""
+    if MODE["memcheck"]:
+        return world.World(exe, seed=seed, cmd_timeout=600, argv_prefix=MEMCHECK)
+    return world.World(exe, seed=seed, cmd_timeout=60)
+
+
 def u(v):
     return cw.uint_bytes(v)
 
@@ -108,7 +121,7 @@ def hostile_datagram(r, seeds):
 
 
 def udp_scenario(exe, r, run, stats, idx):
-    w = world.World(exe, seed=r.getrandbits(30), cmd_timeout=60)
+    w = new_world(exe, r.getrandbits(30))
     sim = world.Sim(w, latency=r.choice([1, 5]))
     wit = {"kind": "udp", "scenario_seed": idx, "script": w.script}
     try:
@@ -252,7 +265,7 @@ def _udp(exe, r, run, stats, w, sim, wit):
                       "2.05 with the resource body")
     evs, rc, err = w.close()
     if rc not in (0, None):
-        s = common.sanitizer_signature(err) or ("exit-rc%s" % rc)
+        s = common.sanitizer_signature(err) or common.valgrind_signature(err) or ("exit-rc%s" % rc)
         run.violation("udp/teardown/%s" % s, dict(wit, stderr=err[-3000:]), err[-1500:])
     for e in evs:
         if e.get("e") == "shadow" and e.get("live"):
@@ -312,7 +325,7 @@ def hostile_stream(r, proto):
 
 
 def stream_scenario(exe, r, run, stats, idx):
-    w = world.World(exe, seed=r.getrandbits(30), cmd_timeout=60)
+    w = new_world(exe, r.getrandbits(30))
     wit = {"kind": "stream", "scenario_seed": idx, "script": w.script}
     try:
         level = r.choice([0, 4, 7, 7, 8])
@@ -388,7 +401,7 @@ def stream_scenario(exe, r, run, stats, idx):
                           "answered 2.05")
         evs, rc, err = w.close()
         if rc not in (0, None):
-            s = common.sanitizer_signature(err) or ("exit-rc%s" % rc)
+            s = common.sanitizer_signature(err) or common.valgrind_signature(err) or ("exit-rc%s" % rc)
             run.violation("stream/teardown/%s" % s, dict(wit, stderr=err[-3000:]), err[-1500:])
         stats["scenarios"] += 1
         return classes
@@ -402,7 +415,7 @@ def stream_scenario(exe, r, run, stats, idx):
 
 def client_stream_scenario(exe, r, run, stats, idx):
     """hostile responses on a client's TCP session"""
-    w = world.World(exe, seed=r.getrandbits(30), cmd_timeout=60)
+    w = new_world(exe, r.getrandbits(30))
     wit = {"kind": "client-stream", "scenario_seed": idx, "script": w.script}
     try:
         w.cmd("log %d" % r.choice([0, 7, 8]))
@@ -461,7 +474,7 @@ def client_stream_scenario(exe, r, run, stats, idx):
                           "not complete a GET on a fresh session")
         evs, rc, err = w.close()
         if rc not in (0, None):
-            s = common.sanitizer_signature(err) or ("exit-rc%s" % rc)
+            s = common.sanitizer_signature(err) or common.valgrind_signature(err) or ("exit-rc%s" % rc)
             run.violation("client-stream/teardown/%s" % s, dict(wit, stderr=err[-3000:]),
                           err[-1500:])
         stats["scenarios"] += 1
@@ -475,12 +488,17 @@ def client_stream_scenario(exe, r, run, stats, idx):
 
 
 def work(job):
-    exe, seeds, tier = job
+    exe, seeds, tier, memcheck = job
+    MODE["memcheck"] = memcheck
     run = common.Run("C02", tier, "exploration")
     stats = dict(scenarios=0, hostile_datagrams=0, malformed_delivered=0, wellformed_delivered=0,
                  canaries=0, hostile_stream_bytes=0)
     seen = set()
+    if memcheck:
+        stats["memcheck_scenarios"] = 0
     for sd in seeds:
+        if memcheck:
+            stats["memcheck_scenarios"] += 1
         r = common.rng("c02-%d" % sd)
         k = sd % 10
         if k < 6:
@@ -509,16 +527,23 @@ def main(tier):
                 "no hang (step budget + watchdog); a datagram the library's own parser rejects "
                 "runs no request/response/ping/pong handler and draws at most one reply; canary "
                 "GETs afterwards (fresh peer, abused client session, fresh TCP connection) are "
-                "answered 2.05 with the body")
+                "answered 2.05 with the body; a memcheck pass repeats the generators on the "
+                "uninstrumented build under valgrind (uninitialised-value-dependent control flow)")
     run.assumptions = ["random exploration: held on the inputs that ran", "uninitialised reads are "
-                       "only caught when they change control flow visibly (no MSan; see DESIGN.md)",
+                       "judged by a valgrind memcheck pass over a smaller number of scenarios "
+                       "(no MSan: GnuTLS is not instrumented)",
                        "leaks under hostile input are counted, not judged"]
     exe = build.ensure_world("asan")
     n = 3000 if tier == "quick" else 60000
     base = common.seed() * 1000000
     seeds = [base + i for i in range(n)]
     per = 12 if tier == "quick" else 40
-    jobs = [(exe, seeds[i:i + per], tier) for i in range(0, len(seeds), per)]
+    jobs = [(exe, seeds[i:i + per], tier, False) for i in range(0, len(seeds), per)]
+    # memcheck pass: the same generators against the uninstrumented build under valgrind
+    plain = build.ensure_world("plain")
+    nm = 96 if tier == "quick" else 3000
+    mseeds = [base + 500000 + i for i in range(nm)]
+    jobs += [(plain, mseeds[i:i + 6], tier, True) for i in range(0, len(mseeds), 6)]
     tot = {}
     for st, seen, vios in common.parallel_map(work, jobs):
         for k, v in st.items():
@@ -534,4 +559,5 @@ def main(tier):
     run.require("wellformed_delivered", tot.get("wellformed_delivered", 0), 1000)
     run.require("canaries", tot.get("canaries", 0), 300)
     run.require("hostile_stream_bytes", tot.get("hostile_stream_bytes", 0), 20000)
+    run.require("memcheck_scenarios", tot.get("memcheck_scenarios", 0), 60)
     return run.finish()
